@@ -515,6 +515,29 @@ pub fn structured(ctx: &Ctx, entries: &[String], seed: u64, nbases: usize, max_p
             rep.distinct.insert(hash_of(&(entry, bseed)));
             // the unmutated exchange itself must not crash either
             run_case(&base0, &json!({"stage":"structured","mutation":"none"}), rep, trace, journal);
+            // "or nothing at all": the server answers the first `cut` requests of the exchange and then stays silent, with 1 and 2
+            // retries (the request bound of C13 is about exactly this: attempts must not multiply one another)
+            {
+                let total: usize = base0.conns.iter().map(|(_, b)| b.len()).sum();
+                for r in [1u64, 2] {
+                    for cut in 0 ..= total.min(6) {
+                        let mut b = base_for(&mut StdRng::seed_from_u64(bseed), ctx, entry);
+                        let mut seen_reactions = 0;
+                        for (_, batches) in &mut b.conns {
+                            for bt in batches.iter_mut() {
+                                if seen_reactions >= cut {
+                                    bt.clear();
+                                }
+                                seen_reactions += 1;
+                            }
+                        }
+                        if !b.cfg["retries"].is_null() || b.cfg.get("retries").is_some() {
+                            b.cfg["retries"] = json!(r);
+                        }
+                        run_case(&b, &json!({"stage":"structured","mutation":{"op":"silent_after"},"answered":cut,"retries":r}), rep, trace, journal);
+                    }
+                }
+            }
             for m in &ctx.mutations {
                 let d = &m["d"];
                 let op = d["op"].as_str().unwrap();
